@@ -7,5 +7,5 @@ git -C /repo archive d5d1997 qlasskit | tar -x -C "$D"
 ( cd "$D" && patch -p1 -s --no-backup-if-mismatch < "$P" ) || { echo "PATCH-FAILED $P"; exit 3; }
 cd /verif
 for id in "$@"; do
-  QV_REPO="$D" ./check "$id" --no-evidence 2>&1 | grep -v "conda" | grep -E "VIOLATION|ANALYSIS-ERROR|^\[|rule " | cut -c1-330
+  QV_REPO="$D" ./check "$id" --no-evidence 2>&1 | grep -E "VIOLATION|ANALYSIS-ERROR|^\[|rule " | cut -c1-330
 done
